@@ -33,7 +33,8 @@ ASSUMPTIONS = ["this family cannot prove the symbolic statement: exploration ove
                "slopes fitted over the five finest levels where the residual exceeds 1e-12 (the statement is about h -> 0; coarse levels are pre-asymptotic for the nonlinear families); margins 0.2 (pathwise) / 0.3 (mean)",
                "reversible Heun is started from its consistent extra state (z0 = y0, f0 = f(y0), g0 = g(y0))"]
 REQUIRED_COUNTERS = ["exact_cases", "taylor_cases", "textbook_cases", "pathwise_slopes", "mean_slopes",
-                     "taylor_order_1.5", "taylor_order_1.0", "taylor_order_0.5", "stub_calls_checked"]
+                     "taylor_order_1.5", "taylor_order_1.0", "taylor_order_0.5", "stub_calls_checked",
+                     "second_step_of_solver_object_cases"]
 THRESHOLDS = {"pathwise_margin": 0.2, "mean_margin": 0.3, "textbook_rel": 1e-13}
 LEVELS = list(range(3, 13))
 
@@ -75,8 +76,15 @@ def make_solver(cell, sde, stub):
     return solver, fs
 
 
+WARM = {"on": False}  # set per case: the measured step is the solver object's SECOND step (see one_step)
+
+
 def one_step(cell, sde, t0, h, y0, W, H, Aextra=None):
-    """Run the real solver's step with prescribed increments. Returns y1 and the stub (for call accounting)."""
+    """Run the real solver's step with prescribed increments. Returns y1 and the stub (for call accounting).
+
+    With WARM["on"] the same solver object first takes a throw-away step of a DIFFERENT length (0.37 * dt of the solver,
+    from another state): the property is about every step, and a step must not depend on steps the object took before
+    (per-object caches of step constants and the like)."""
     U = h * (0.5 * W + H)
     A = H.unsqueeze(-1) * W.unsqueeze(-2) - W.unsqueeze(-1) * H.unsqueeze(-2)
     if Aextra is not None:
@@ -86,6 +94,11 @@ def one_step(cell, sde, t0, h, y0, W, H, Aextra=None):
     solver, fs = make_solver(cell, sde, stub)
     t0 = torch.as_tensor(t0)
     t1 = t0 + h
+    if WARM["on"]:
+        tw = t0 - 0.037
+        yw = y0 * 0.5 + 0.1
+        solver.step(tw, t0, yw, solver.init_extra_solver_state(tw, yw))
+        stub.calls.clear()
     extra = solver.init_extra_solver_state(t0, y0)
     y1, _ = solver.step(t0, t1, y0, extra)
     return y1, stub, float(solver.strong_order)
@@ -357,4 +370,11 @@ def run_textbook(case):
 
 
 def run_case(case):
+    WARM["on"] = bool(case["rseed"] % 2)
+    res = _run_case(case)
+    res.setdefault("counters", {})["second_step_of_solver_object_cases"] = int(WARM["on"])
+    return res
+
+
+def _run_case(case):
     return {"exact": run_exact, "taylor": run_taylor, "textbook": run_textbook}[case["oracle"]](case)
